@@ -3,7 +3,7 @@
 //! functions: EGraph::union apply_rewrites
 //! also-with-features: checks
 //! Bound: `EGraph::union`: 600 (deep: 6000) pseudo-random histories of 6 insertions (terms of depth ≤ 2 over
-//! var, mul/2, f3/3, f4/4, g/1, lam, 5 slot names) and 8 unions between the inserted terms, plus 14 hand-written histories
+//! var, mul/2, f3/3, f4/4, g/1, lam, 5 slot names) and 8 unions between the inserted terms, plus 16 hand-written histories
 //! (symmetry then redundancy, a class equated with a term that contains it, redundancy under a binder);
 //! `apply_rewrites`: 13 terms × 12 rule sets × 3 rounds and 5 terms × 10 one-rule-per-round sequences (native substitution,
 //! let-introduction, rules under binders, after a redundancy or symmetry was established).  After EVERY operation: the built-in `EGraph::check`, every
@@ -105,6 +105,9 @@ fn hand_written() -> Vec<(Vec<&'static str>, Vec<(usize, usize)>)> {
         // an e-node with a slot that is redundant in its class, over a child that then becomes symmetric (F14)
         (vec!["(g (mul (var $1) (var $2)))", "(g (mul (var $1) (var $3)))", "(mul (var $1) (var $2))", "(mul (var $2) (var $1))"], vec![(0, 1), (2, 3)]),
         (vec!["(g (f3 (var $1) (var $2) (var $3)))", "(g (f3 (var $1) (var $2) (var $9)))", "(f3 (var $1) (var $2) (var $3))", "(f3 (var $2) (var $3) (var $1))"], vec![(0, 1), (2, 3)]),
+        // a symmetric class merged INTO a less symmetric class that has parents with differently ordered invocations of it
+        (vec!["(mul (var $1) (var $2))", "(mul (var $2) (var $1))", "(app (var $1) (var $2))", "(g (app (var $1) (var $2)))", "(f3 (app (var $1) (var $2)) (app (var $2) (var $1)) zero)", "(f3 (var $2) (app (var $1) (var $2)) zero)"], vec![(0, 1), (0, 2)]),
+        (vec!["(f3 (var $1) (var $2) (var $3))", "(f3 (var $2) (var $3) (var $1))", "(f4 (var $1) (var $2) (var $3) zero)", "(g (f4 (var $1) (var $2) (var $3) zero))", "(mul (f4 (var $1) (var $2) (var $3) zero) (f4 (var $2) (var $1) (var $3) zero))", "(mul (f4 (var $3) (var $1) (var $2) zero) (var $1))"], vec![(0, 1), (0, 2)]),
         // redundancy under a binder
         (vec!["(lam $1 (mul (var $1) (var $2)))", "(lam $1 (mul (var $1) (var $3)))"], vec![(0, 1)]),
         (vec!["(lam $1 (f3 (var $1) (var $2) (var $3)))", "(lam $1 (f3 (var $1) (var $3) (var $2)))", "(lam $1 (f3 (var $1) (var $2) (var $8)))"], vec![(0, 1), (0, 2)]),
